@@ -328,7 +328,8 @@ impl Display for Expr {
             if val.parse::<f64>().is_ok() {
                 fmt.write_str(val)?;
             } else {
-                write!(fmt, "'{}'", val)?;
+                // quotes inside the text are escaped, or `concat("a', 'b")` would read like `concat('a', 'b')`
+                write!(fmt, "'{}'", val.replace('\\', "\\\\").replace('\'', "\\'"))?;
             }
         }
 
